@@ -25,6 +25,8 @@ The verdicts are computed by TLC from the recorded trace only.
 """
 import argparse, json, os, random, shutil, struct, sys, tempfile, itertools
 
+import os as _os
+_os.environ.setdefault("VERIF_ASYNC_CPU", "1")   # CPU-bound steps finish one reactor turn later, as in production
 from vreactor import vr, settle
 from twisted.internet import defer
 from twisted.python.failure import Failure
